@@ -1,6 +1,7 @@
 package core
 
 import (
+	"errors"
 	"fmt"
 	"slices"
 	"sync"
@@ -9,6 +10,7 @@ import (
 	"github.com/nspcc-dev/neo-go/pkg/config"
 	"github.com/nspcc-dev/neo-go/pkg/core/block"
 	"github.com/nspcc-dev/neo-go/pkg/core/dao"
+	"github.com/nspcc-dev/neo-go/pkg/core/storage"
 	"github.com/nspcc-dev/neo-go/pkg/util"
 )
 
@@ -79,13 +81,16 @@ func (h *HeaderHashes) init(dao *dao.Simple, trusted config.HashIndex) error {
 	h.dao = dao
 	h.cache, _ = lru.New[uint32, []util.Uint256](pagesCache) // Never errors for positive size.
 	h.storedHeaderCount = ((currHeaderHeight + 1) / headerBatchCount) * headerBatchCount
-	missingHeaderCount := ((trusted.Index + 1) / headerBatchCount) * headerBatchCount
-	if h.storedHeaderCount >= headerBatchCount &&
-		((h.storedHeaderCount > missingHeaderCount && h.storedHeaderCount-missingHeaderCount >= headerBatchCount) ||
-			currHeaderHeight%headerBatchCount != trusted.Index%headerBatchCount) {
+	if h.storedHeaderCount >= headerBatchCount {
 		h.previous, err = h.dao.GetHeaderHashes(h.storedHeaderCount - headerBatchCount)
 		if err != nil {
-			return fmt.Errorf("failed to retrieve header hash page %d: %w; stored: %d, missing: %d, trusted: %d, curr: %d", h.storedHeaderCount-headerBatchCount, err, h.storedHeaderCount, missingHeaderCount, trusted.Index, currHeaderHeight)
+			// The list of a node started from a trusted header begins in the page of
+			// that header: the pages below it never existed. Any other missing page
+			// is a broken database.
+			if !errors.Is(err, storage.ErrKeyNotFound) || trusted.Index == 0 || h.storedHeaderCount > trusted.Index {
+				return fmt.Errorf("failed to retrieve header hash page %d: %w; stored: %d, trusted: %d, curr: %d", h.storedHeaderCount-headerBatchCount, err, h.storedHeaderCount, trusted.Index, currHeaderHeight)
+			}
+			h.previous = make([]util.Uint256, headerBatchCount)
 		}
 	} else {
 		h.previous = make([]util.Uint256, headerBatchCount)
@@ -124,7 +129,12 @@ func (h *HeaderHashes) init(dao *dao.Simple, trusted config.HashIndex) error {
 		}
 		slices.Reverse(headers)
 		if padLeft {
-			h.latest = h.latest[:currHeaderHeight-uint32(len(headers))]
+			// Zero hashes for the part of the current page below the trusted header.
+			var pad uint32
+			if trusted.Index > h.storedHeaderCount {
+				pad = trusted.Index - h.storedHeaderCount
+			}
+			h.latest = h.latest[:pad]
 			h.latest = append(h.latest, trusted.Hash)
 		}
 		h.latest = append(h.latest, headers...)
